@@ -37,13 +37,11 @@ def kinds(ans):
 
 
 KNOWN_CLASSES = [
-    # (F9a, F9b, F9c, F9d are repaired: those inputs are compared like any other)
+    # (F9a, F9b, F9c, F9d, F9f, F9g are repaired: those inputs are compared like any other)
     # (finding id, predicate on the source text): syntactic classes of inputs on which the two lexers are known
     # to diverge (known-findings.json); such inputs are still compared alpha-vs-reference, and each class is
     # probed with its specific input on every run.
     ("F9e", re.compile(r"[^\x00-\x7f]")),                   # non-ASCII (byte vs char offsets; one E110 per byte)
-    ("F9f", re.compile(r"\r(?!\n)")),                       # lone carriage return
-    ("F9g", re.compile(r"[\"'][^\n]*\r\n")),                # CRLF at the end of a line that contains a quote
 ]
 PROBES = [("F9a", "'\\u{41}'"), ("F9b", '"\\u{0000041}"'), ("F9c", "0b" + "0" * 129 + "1"), ("F9d", '"\\\n'),
           ("F9e", "\u00e9"), ("F9f", "a\rb"), ("F9g", '"\r\n')]
@@ -193,10 +191,7 @@ def main():
                 return out
             # (one E110 per character in both generations since F9e was repaired: runs are compared as they are, unless a
             # lone carriage return is involved - F9f)
-            if "\r" in s:
-                exp, got = squash(kinds(exp)), squash(kinds(got))
-            else:
-                exp, got = kinds(exp), kinds(got)
+            exp, got = kinds(exp), kinds(got)
         if got == exp:
             agree_d += 1
         else:
